@@ -4,6 +4,7 @@
 From V.lib Require Import Base.
 From V.c07 Require Import C07Model.
 From V.c06 Require Import C06Model C06InitModel C06StructProofs C06CencProofs C06CbcsProofs C06SampleProofs C06InitProofs C06FragModel C06FragProofs.
+From V.c06 Require Import C06SencModel C06SencProofs C06SencAuxProofs.
 
 (* cenc: crypting twice with the same key, IV and sub-sample map restores the sample — for EVERY block function
    E, every map (empty = whole sample, partial last block, clear runs > 65535, even overlapping or wrapping
@@ -142,6 +143,83 @@ Theorem C06_decrypt_preserves_timing :
 Proof. exact decrypt_preserves_timing. Qed.
 Print Assumptions C06_decrypt_preserves_timing.
 
+(* ---------------------------------------------------------------- the senc box, byte for byte *)
+(* parse (encode senc) = senc: the box SencBox.Encode writes (header, version/flags, sample_count, per-sample IV of
+   0 / 8 / 16 bytes, sub-sample tables) is read back by DecodeSenc + ParseReadBox as the same SencBox state, for
+   every IV size and every sub-sample layout (constant-IV cbcs boxes without per-sample IVs, audio boxes without
+   tables, empty boxes included), when ParseReadBox is given the written IV size, or 0 (= infer) for a box without
+   sub-sample tables *)
+Theorem C06_senc_codec : forall s p box,
+  senc_wf s = true -> p_ok p s = true ->
+  senc_encode s = Ok box -> lenN box < 4294967296 ->
+  senc_parse p box = Ok s.
+Proof. exact senc_codec. Qed.
+Print Assumptions C06_senc_codec.
+
+(* saiz describes exactly the senc entries: for a fragment whose samples all carry an IV of ivsz bytes and
+   uniformly have / do not have a sub-sample map, the sizes the SaizBox of EncryptFragment describes are the byte
+   lengths of the entries the SencBox writes, sample by sample (entries below 256 bytes: C07-F1 beyond) *)
+Theorem C06_aux_consistent : forall ivsz sub encs z,
+  (ivsz = 0 \/ ivsz = 8 \/ ivsz = 16) -> uniform ivsz sub encs = true ->
+  forallb (fun e => lenN e <? 256) (entries_of ivsz sub encs) = true ->
+  saiz_of saiz_empty encs = Ok z ->
+  if sub || (0 <? ivsz) then
+    saiz_sizes z = map (fun e => lenN e) (entries_of ivsz sub encs) /\ sz_count z = lenN encs
+  else
+    saiz_sizes z = [] /\ sz_count z = 0 /\ concat (entries_of ivsz sub encs) = [].
+Proof. exact aux_consistent. Qed.
+Print Assumptions C06_aux_consistent.
+
+(* saio: in the encoded moof (any boxes before the traf, any boxes before senc in the traf, box sizes as at
+   encryption time) the stored offset addresses the first byte of the first senc entry, and it is the value
+   TrafBox.ParseReadSenc insists on (senc box position + 16, relative to the moof start) *)
+Theorem C06_saio_points_at_entries : forall moof_hdr traf_hdr (before pre : list (list N)) post senc_hdr16 entries tail,
+  length moof_hdr = 8%nat -> length traf_hdr = 8%nat -> length senc_hdr16 = 16%nat ->
+  forallb (fun x : bool * N => negb (fst x)) post = true ->
+  let off := saio_offset (map (fun b => lenN b) before)
+                         (map (fun b => (false, lenN b)) pre ++ (true, lenN (senc_hdr16 ++ entries)) :: post) in
+  let moof := moof_hdr ++ concat before ++ traf_hdr ++ concat pre ++ (senc_hdr16 ++ entries) ++ tail in
+  skipn (N.to_nat off) moof = entries ++ tail /\
+  off = lenN (moof_hdr ++ concat before ++ traf_hdr ++ concat pre) + 16.
+Proof. exact saio_points_at_entries. Qed.
+Print Assumptions C06_saio_points_at_entries.
+
+(* transport, cenc: the senc box written for the samples EncryptFragment's loop encrypted (16-byte IVs, all samples
+   with a sub-sample map = video, or none = audio) is parsed with tenc's per-sample IV size 16 into exactly the IV
+   list and sub-sample lists (decoded_ivs / decoded_subs) that C06_iv_sequence_cenc and C06_fragment_roundtrip_cenc
+   feed to decryptSamplesInPlace: the "as the senc decoder returns them" of those theorems is now proved *)
+Theorem C06_senc_transport_cenc :
+  forall (E : list N -> list N -> list N) (protfunc : list N -> res (list ssp)) sub key iv samples encs s box,
+  length iv = 16%nat -> prot_uniform protfunc sub samples -> prot_in_range protfunc samples ->
+  lenN samples < 4294967296 ->
+  encrypt_samples_cenc E protfunc key iv samples = Ok encs ->
+  senc_of senc_empty encs = Ok s -> senc_encode s = Ok box -> lenN box < 4294967296 ->
+  exists s', senc_parse 16 box = Ok s' /\ sn_ivs s' = decoded_ivs encs /\ sn_ss s' = decoded_subs encs /\
+             sn_count s' = lenN samples.
+Proof. exact senc_transport_cenc. Qed.
+Print Assumptions C06_senc_transport_cenc.
+
+(* transport, cbcs: no per-sample IV is written; tenc's per-sample IV size is 0 *)
+Theorem C06_senc_transport_cbcs :
+  forall (E D : list N -> list N -> list N) (protfunc : list N -> res (list ssp)) sub key iv cb sb samples encs s box,
+  prot_uniform protfunc sub samples -> prot_in_range protfunc samples ->
+  lenN samples < 4294967296 ->
+  encrypt_samples_cbcs E D protfunc key iv cb sb samples = Ok encs ->
+  senc_of senc_empty encs = Ok s -> senc_encode s = Ok box -> lenN box < 4294967296 ->
+  exists s', senc_parse 0 box = Ok s' /\ sn_ivs s' = decoded_ivs encs /\ sn_ss s' = decoded_subs encs /\
+             sn_count s' = lenN samples.
+Proof. exact senc_transport_cbcs. Qed.
+Print Assumptions C06_senc_transport_cbcs.
+
+(* why `uniform` / prot_uniform is there: a fragment mixing samples with and without a sub-sample map leaves one
+   table for two samples in the SencBox and Encode indexes out of range (reproduced on the real code: see
+   known_findings/C06.json) *)
+Theorem C06_mixed_subsamples_refuted :
+  let encs := [mkEnc (repeat 1 16) [] []; mkEnc (repeat 2 16) [mkSsp 5 16] []] in
+  exists s, senc_of senc_empty encs = Ok s /\ sn_count s = 2 /\ length (sn_ss s) = 1%nat /\ senc_encode s = Panic.
+Proof. exact mixed_subsamples_refuted. Qed.
+Print Assumptions C06_mixed_subsamples_refuted.
+
 (* ---------------------------------------------------------------- examples *)
 (* the defect of the pinned tree (fixed by the `fix:` commit): traf{tfhd, tfxd-uuid} lost its uuid box and no
    byte was counted *)
@@ -208,3 +286,23 @@ Example ex_frag_roundtrip :
   | _ => False
   end.
 Proof. vm_compute. repeat split; try reflexivity. discriminate. Qed.
+
+(* the hypotheses of the senc theorems are satisfiable: a cenc video box (16-byte IVs, sub-sample tables), a cbcs
+   box without per-sample IVs, and the 8-byte-IV box read with perSampleIVSize 0 (inferred) *)
+Example ex_senc_codec :
+  let s1 := mkSenc 16 true 2 [repeat 7 16; repeat 9 16] [[mkSsp 100 32; mkSsp 7 0]; [mkSsp 65535 4294967295]] in
+  let s2 := mkSenc 0 true 1 [] [[mkSsp 9 160]] in
+  let s3 := mkSenc 8 false 3 [repeat 1 8; repeat 2 8; repeat 3 8] [] in
+  senc_wf s1 = true /\ p_ok 16 s1 = true /\ senc_wf s2 = true /\ p_ok 0 s2 = true /\ senc_wf s3 = true /\ p_ok 0 s3 = true /\
+  match senc_encode s1, senc_encode s2, senc_encode s3 with
+  | Ok b1, Ok b2, Ok b3 => senc_parse 16 b1 = Ok s1 /\ senc_parse 0 b2 = Ok s2 /\ senc_parse 0 b3 = Ok s3 /\ lenN b1 = 70
+  | _, _, _ => False
+  end.
+Proof. vm_compute. repeat split; reflexivity. Qed.
+
+Example ex_aux_consistent :
+  let encs := [mkEnc (repeat 7 16) [mkSsp 100 32; mkSsp 7 0] []; mkEnc (repeat 8 16) [mkSsp 5 16] []] in
+  uniform 16 true encs = true /\
+  forallb (fun e => lenN e <? 256) (entries_of 16 true encs) = true /\
+  match saiz_of saiz_empty encs with Ok z => saiz_sizes z = [30; 24] | _ => False end.
+Proof. vm_compute. repeat split; reflexivity. Qed.
